@@ -418,7 +418,13 @@ class Prov:
             t = self._env_subst(t)
             return ("ref", t)
         if k == "cast":
-            return ("cast", r["ck"], self.op_tree(r["op"], depth + 1), self.body.ty(r["ty"])["s"])
+            src_ty = ""
+            try:
+                o_ = r["op"]
+                src_ty = self.body.ty(o_["p"]["ty"] if o_["k"] in ("copy", "move") else o_["ty"])["s"]
+            except Exception:
+                pass
+            return ("cast", r["ck"], self.op_tree(r["op"], depth + 1), self.body.ty(r["ty"])["s"], src_ty)
         if k == "bin":
             return ("bin", r["op"], self.op_tree(r["a"], depth + 1), self.op_tree(r["b"], depth + 1))
         if k == "un":
@@ -463,6 +469,22 @@ class Prov:
         if c is None:
             return ("call", "<indirect>", "<indirect>", args)
         key = c.get("resolved") or c["key"]
+        # a numeric From/Into is the lossless `as` cast: give it the same tree
+        if c["name"] in ("from", "into") and len(args) == 1 and c.get("crate") in ("core", "std") and "dest" in t:
+            try:
+                dt = self.body.ty(t["dest"]["ty"])["s"]
+                st = None
+                a0 = t["args"][0]
+                if a0["k"] in ("copy", "move"):
+                    st = self.body.ty(a0["p"]["ty"])["s"]
+                elif a0["k"] == "const":
+                    st = self.body.ty(a0["ty"])["s"]
+                if dt in _NUMERIC and st in _NUMERIC and dt != st:
+                    kind = "IntToFloat" if dt in ("f32", "f64") and st not in ("f32", "f64") else (
+                        "FloatToFloat" if dt in ("f32", "f64") else "IntToInt")
+                    return ("cast", kind, args[0], dt, st)
+            except Exception:
+                pass
         inl = self._transparent(key, c, args, depth)
         if inl is not None:
             return inl
@@ -471,6 +493,9 @@ class Prov:
             if st["k"] == "adt":
                 key = "%s::<%s as %s>::%s" % (st["path"].rsplit("::", 1)[0], st["name"], c["trait"], c["name"])
         return ("call", key, c["name"], args)
+
+
+_NUMERIC = {"u8", "u16", "u32", "u64", "u128", "usize", "i8", "i16", "i32", "i64", "i128", "isize", "f32", "f64", "bool"}
 
 
 def _has_unknown(t, depth=0):
